@@ -26,6 +26,7 @@ type connEnv struct {
 	nd   *node.Node
 	s    *gocql.Session
 	pool *node.ServerConn
+	tc   *tconn // the pool connection as the driver sees it (records SetWriteDeadline / Write calls)
 }
 
 func (e *connEnv) close() {
@@ -49,7 +50,8 @@ func newConnEnvWT(window, writeTimeout time.Duration) (*connEnv, error) {
 	}
 	n.SetTable(t)
 	cfg := gocql.NewCluster("10.0.0.1")
-	cfg.Dialer = n.Dialer()
+	td := &tdialer{inner: n.Dialer()}
+	cfg.Dialer = td
 	cfg.ProtoVersion = 4
 	cfg.Timeout = 3 * time.Second
 	cfg.ConnectTimeout = 3 * time.Second
@@ -59,6 +61,7 @@ func newConnEnvWT(window, writeTimeout time.Duration) (*connEnv, error) {
 	cfg.Logger = log.New(io.Discard, "", 0)
 	cfg.WriteCoalesceWaitTime = window
 	cfg.WriteTimeout = writeTimeout
+	cfg.DefaultTimestamp = false // keeps the frames free of wall-clock bytes
 	s, err := gocql.NewSession(*cfg)
 	if err != nil {
 		n.Close()
@@ -71,6 +74,7 @@ func newConnEnvWT(window, writeTimeout time.Duration) (*connEnv, error) {
 		return nil, fmt.Errorf("expected a control and a pool connection, have %d", len(conns))
 	}
 	e.pool = conns[len(conns)-1]
+	e.tc = td.last()
 	// prepare the statement so that every later query is exactly one EXECUTE frame
 	var v int
 	if err := s.Query(stmt, keyOf(0)).Scan(&v); err != nil {
@@ -180,6 +184,8 @@ func followUp(o *hlib.Out, idx int, e *connEnv, k int, in interface{}) {
 }
 
 func connLevel(o *hlib.Out) {
+	gocql.VerifConnTraceStart(0)
+	defer gocql.VerifConnTraceStop()
 	r := o.Rng
 	sc := o.Scale
 	stats := map[string]int{}
@@ -340,6 +346,8 @@ func connLevel(o *hlib.Out) {
 			off := l.C2S.Written()
 			foff := off + int64(r.Intn(m*45))
 			l.C2S.AddWriteFault(node.WriteFault{Offset: foff, Err: codeErr{22}})
+			e.tc.rc.clear()
+			gocql.VerifConnTraces(e.s, true) // forget the startup / warm-up events
 			var wg sync.WaitGroup
 			errs := make([]error, m)
 			start := make(chan struct{})
@@ -369,6 +377,16 @@ func connLevel(o *hlib.Out) {
 				}
 			}
 			in := map[string]interface{}{"window": window.String(), "requests": m, "fault_offset_in_traffic": foff - off, "failed_requests": nerr}
+			// replay the whole scenario through the writer model (before anything else touches the connection)
+			idx := -1
+			if term, why := connReplay(e, off, window > 0, []fault{{off: foff, kind: fkErr, code: 22}}); term != "" {
+				idx = o.Case(fmt.Sprintf("conn-replay-%v", window), true, term)
+			} else if len(why) > 4 && why[:4] == "env:" {
+				o.Count("env-anomaly-skipped")
+			} else {
+				o.Violate(-1, "conn-replay-impossible", "", why, in)
+			}
+			_ = idx
 			o.Count(fmt.Sprintf("conn-concurrent-%v", window))
 			torn, late := wireMonitor(o, -1, fmt.Sprintf("%d concurrent requests, window %v", m, window), e, off, true, in)
 			if torn {
